@@ -203,6 +203,8 @@ def scaling_leg(ctx):
             return struct.pack("!BxH", 0, 1) + struct.pack("!HHHHi", 0, 0, 64, 64, 4) + struct.pack("!I", n) + px() + (px() + bytes([1, 1, 2, 2])) * n
         if kind == "cuttext":
             return struct.pack("!BxxxI", 3, 40 * n) + bytes(40 * n)
+        if kind == "bells":
+            return b"\x02" * (4 * n)            # very many tiny messages in one delivery
         if kind == "colourmap":
             return struct.pack("!BxHH", 1, 0, min(n, 65535)) + bytes(6 * min(n, 65535))
         if kind == "raw":
@@ -241,9 +243,9 @@ def scaling_leg(ctx):
             best = dt if best is None else min(best, dt)
         return best, None, len(m)
 
-    for kind in ("rre", "corre", "hextile", "cuttext", "colourmap", "raw", "raw-chunked", "cuttext-chunked"):
+    for kind in ("rre", "corre", "hextile", "cuttext", "colourmap", "raw", "raw-chunked", "cuttext-chunked", "bells"):
         # sub-rectangle tables: large enough for a per-item copy of the remaining block to dominate the per-item overhead
-        N = (15000 if kind in ("rre", "corre") else 20000 if kind.endswith("-chunked") else 6000) * (1 if ctx.tier == "quick" else 2)
+        N = (15000 if kind in ("rre", "corre", "bells") else 20000 if kind.endswith("-chunked") else 6000) * (1 if ctx.tier == "quick" else 2)
         t1, e1, b1 = cost(kind, N)
         t4, e4, b4 = cost(kind, 4 * N)
         ctx.count("scaling_probes")
@@ -259,9 +261,26 @@ def scaling_leg(ctx):
             ctx.violate("superlinear-time", dict(rp, observed="%d bytes took %.3f s, %d bytes took %.3f s: %.1f x the time for %.1f x the bytes" % (b1, t1, b4, t4, t4 / max(t1, 1e-9), b4 / b1)))
 
 
+def zrle_corpus():
+    """always-run corpus: a packed-palette tile of every index width (1, 2, 4 bits) that has NO pixels - a rectangle of height 0
+    that nevertheless carries tile data, and a surplus tile after the last one of a 1x1 rectangle"""
+    import zlib
+    pf = vclient.RGB32
+    hs = b"RFB 003.008\n" + bytes([1, 1]) + struct.pack("!I", 0) + server_init(64, 64, pf, b"z")
+    out = []
+    for psize in (2, 3, 4, 5, 9, 16):
+        tile = bytes([psize]) + bytes(3 * psize) + bytes(8)
+        for (w, h, pre) in ((8, 0, b""), (3, 0, b""), (1, 1, bytes([1, 7, 7, 7]))):
+            z = zlib.compressobj()
+            comp = z.compress(pre + tile) + z.flush(zlib.Z_SYNC_FLUSH)
+            out.append((hs + struct.pack("!BxH", 0, 1) + struct.pack("!HHHHi", 0, 0, w, h, 16) + struct.pack("!I", len(comp)) + comp + b"\x02", "zrle-corpus"))
+    return out
+
+
 def run(ctx):
     r = ctx.rng
     scaling_leg(ctx)
+    corpus = zrle_corpus()
     oldlim = limit_memory(3 << 30)
     n = ctx.n(500, 8000)
     lines_all, meta = [], []
@@ -271,6 +290,10 @@ def run(ctx):
         if r.random() < .5:
             opts["password"] = "pw%d" % si
         stream, authresp, how = gen_stream(r, kind, opts)
+        if si < len(corpus):
+            stream, how = corpus[si]
+            opts = {}
+            authresp = b""
         k = r.random()
         if k < .4 or len(stream) < 2:
             chunks = [stream]
